@@ -11,7 +11,12 @@ USED_UP = ("swapping exists/lexists/isfile; memoising or caching anything; str.r
            "takeover of empty .trashinfo files; expanduser / glob expansion / Unicode normalisation of arguments or paths; "
            "psutil.disk_partitions arguments and file-system types; skipping names made of dots; hand-written recursive deletes or copy+delete "
            "moves; printable()/escaping of what is printed; computing the volume of a trash directory differently; "
-           "`return` instead of `continue` in a loop over entries")
+           "`return` instead of `continue` in a loop over entries; re-ordering or sorting the arguments; special handling of shutil.Error; "
+           "tuple sort keys; narrowing or widening an `except` clause (ParseError/ValueError/Exception/errno filters); os.system / subprocess "
+           "instead of a library call; removing empty trash directories; EPIPE / broken stdout handling; raising ValueError instead of OSError; "
+           "any() vs len() on the failed paths; `errors=` of unquote; str.format / % on a message that contains a path; special-casing an "
+           "empty Path=; probe files or hard links created and removed again; parking the replaced destination somewhere; remembering what "
+           "was restored earlier in the same run; deleting the .trashinfo before the payload; private-but-not-sticky .Trash accepted")
 WHERE = ("Places that have hardly been touched so far: how parsed options are handed on between the layers (trashcli/put/main.py, context.py, "
          "trashcli/empty/main.py, empty_cmd.py, trashcli/restore/restore_cmd.py, handler.py), logging / verbosity / what is reported and with "
          "which exit code (reporter.py, my_logger.py, describer.py), the environment (XDG_DATA_HOME, HOME, TRASH_VOLUMES, TRASH_DATE, "
@@ -19,7 +24,11 @@ WHERE = ("Places that have hardly been touched so far: how parsed options are ha
          "the gate and the security check order in trashcli/put/janitor.py and janitor_tools/*, permissions of created directories "
          "(dir_maker.py), parsing of the user's reply in trash-restore (range.py, sequences.py, parse_indexes), index arithmetic, "
          "trashcli/restore/info_dir_searcher.py, info_files.py, the interplay of two options (e.g. --trash-dir with DAYS, -v with --dry-run, "
-         "--sort with --overwrite), the order of two steps anywhere. At least one of the two must be a change of 1-3 lines.")
+         "--sort with --overwrite), the order of two steps anywhere; also: trash-list's --size / --files / --all-users / --trash-dirs options "
+         "(trashcli/list/*.py), trash-empty's --all-users and the user listing (empty/*.py, lib/user_info.py), TRASH_VOLUMES parsing "
+         "(colon-separated, empty items, trailing slashes), volume_of / parent_realpath for paths through `..`, the suffix generator "
+         "(put/suffix.py) and the 100th same-named entry, trash-rm's argument validation and its exit status, the prompts' wording and where "
+         "they are written, what happens on KeyboardInterrupt / EOF at a prompt. At least one of the two must be a change of 1-3 lines.")
 
 
 def main(a, b):
